@@ -3,9 +3,14 @@
 E1: every history (operation sequence over warm-up / sample calls, to depth 3) of both Gibbs samplers is
 executed on the real code with *recording* block samplers; a dict-based reference sweep model is advanced in
 lock-step and compared after every transition and after every operation.
-E2: all randomness is scripted (vfw.stream); with real MH blocks the uniform is symbolic and the decision
-tree of accept/reject answers is explored, the acceptance probability the implementation compares with
-being read off every decision point.
+E2: all randomness is scripted (vfw.stream); with real MH / NUTS blocks the uniform is symbolic and the decision
+tree of accept/reject (NUTS: direction / subtree / accept) answers is explored, the probability the implementation
+compares with being read off every decision point.
+
+Configuration facets besides the sampler assignment: the ORDER in which the user's ``sampling_strategy`` and
+``num_sampling_steps`` dicts list the blocks relative to the joint's parameter order (all permutations), step
+counts given for all / some / no blocks; the block-sampler alphabet contains every class HybridGibbs routes
+through a special path (NUTS) next to the ordinary ones (MH, MALA, Conjugate, LinearRTO, a scripted spy).
 """
 import itertools
 import math
@@ -15,39 +20,67 @@ from vfw import refs
 from vfw.stream import Stream, Decisions, explore
 
 PROPERTY = "C09"
-RULE = ("cell = (interface, joint, assignment of {spy, real...} samplers to blocks, num_sampling_steps per block); "
+RULE = ("cell = (interface, joint, assignment of {spy, real...} samplers to blocks, num_sampling_steps per block, "
+        "order in which the sampling_strategy dict and the num_sampling_steps dict list the blocks relative to the "
+        "joint's parameter order, which blocks have a step count given at all); "
         "inside a cell ALL operation sequences of the tier's depth are executed (prefix histories are judged at "
-        "every operation end, so a depth-3 execution decides its 3 prefixes) and, with MH blocks, all leaves of "
-        "the accept/reject decision tree inside the stated deviation bound; state = (history, decision prefix); "
-        "transition = one block-sampler step on the real code; a cell is non-trivial when at least one sweep "
+        "every operation end, so a depth-3 execution decides its 3 prefixes) and, with MH / MALA / NUTS blocks, all leaves of "
+        "the decision tree of their uniform draws inside the stated deviation bound; state = (history, decision "
+        "prefix); transition = one block-sampler step on the real code, judged for: which block, how many "
+        "transitions per visit (the count configured for THAT block by name, default 1), start point = the block's "
+        "current value, target (log-density, for gradient kernels also gradient, at probes) = joint conditioned on the "
+        "current others, evaluations the kernel has cached for its start (MH log-density, MALA / NUTS log-density and "
+        "gradient), and the move itself against a reference kernel; a cell is non-trivial when at least one sweep "
         "was executed and compared")
 BOUND = {
-    "quick": "joints {hier3 (d,l,x), hier2 (x,d), gauss2 (u,v)}; assignments: all {spy,real-set-A}^blocks and "
-             "{spy,MH}^blocks; HybridGibbs num_sampling_steps patterns (1..),(2..),(3,1,2); op sequences "
-             "over {warmup(1),warmup(2),sample(1),sample(2)}: all of depth<=3 for cells without MH, depth<=2 with "
-             "MH; decision trees: complete when <=4 decisions, else all leaves with <=1 rejection + all-reject + "
-             "2 alternating paths; legacy Gibbs: ops {sample(1),sample(2),warmup(1),warmup(2),sample(1,Nb=1),"
-             "sample(2,Nb=2)} depth<=2",
-    "thorough": "as quick but: all 27/9/6 assignments of {spy,conj|rto,mh} kinds; num_sampling_steps: full "
-                "{1,2,3}^blocks product (3-block cells with MH: the 3 all-equal patterns + the 6 permutations of "
-                "(1,2,3)); depth<=3 for cells without MH and for cells with exactly one MH block and all-equal steps, "
-                "depth<=2 otherwise; complete decision trees up to 8 decisions (6 in depth-3 cells); legacy depth<=3 (<=2 with >1 MH block)",
+    "quick": "joints {hier3 (d,l,x), hier2 (x,d), gauss2 (u,v), hier3c (= hier3 with cov=1/d, NUTS-capable)}; "
+             "assignments: all {spy,real-set-A}^blocks, {spy,MH}^blocks and {spy,set-A}^others x {NUTS (max_depth 0), "
+             "MALA} on the gradient-capable block (x of hier3c, v of gauss2); HybridGibbs num_sampling_steps "
+             "patterns (1..),(2..),(3,1,2) (NUTS/MALA cells: (1..),(3,1,2)); op sequences "
+             "over {warmup(1),warmup(2),sample(1),sample(2)}: all of depth<=3 for cells without MH/MALA/NUTS, depth<=2 "
+             "with; "
+             "decision trees: complete when <=4 decisions, else all leaves with <=1 non-default answer + all-reject + "
+             "alternating paths (period 2; NUTS also period 4); dict-order facet (depth<=2, counts (3,1,2)): all-spy "
+             "blocks x ALL pairs (strategy-dict permutation, step-dict permutation) of the 2/3 blocks; counts given "
+             "for all but the first block x all strategy permutations; no counts given; set-A real samplers with both "
+             "dicts in each non-joint order; NUTS assignment with both dicts reversed; "
+             "legacy Gibbs: ops {sample(1),sample(2),warmup(1),warmup(2),sample(1,Nb=1),"
+             "sample(2,Nb=2)} depth<=2, strategy dict in every order (all-spy) / reversed (set A)",
+    "thorough": "as quick but: all assignments of {spy,conj|rto,mh,nuts,mala} kinds (hier3c: those with a NUTS/MALA "
+                "block); num_sampling_steps: full {1,2,3}^blocks product (3-block cells with MH/MALA/NUTS: the 3 all-equal "
+                "patterns + the 6 permutations of (1,2,3)); depth<=3 for cells without MH/MALA/NUTS and for cells with "
+                "exactly one such block and all-equal steps, depth<=2 otherwise; complete decision trees up to 8 decisions (6 in "
+                "depth-3 cells); NUTS additionally with max_depth 1 (steps (1..)); dict-order facet: all-spy x all "
+                "permutation pairs x all permutations of (1,2,3) as counts, three partial-count patterns, set A with all "
+                "permutation pairs, NUTS and MALA assignments with every non-joint order; legacy depth<=3 (<=2 with >1 MH block), "
+                "strategy dict in every order (all-spy and set A)",
 }
 ASSUMPTIONS = [
-    "reference joint log-densities are textbook Gamma / Gaussian formulas written in the harness (dense numpy)",
+    "reference joint log-densities (and the gradients of the Gaussian vector blocks, self-checked against central "
+    "differences of the reference log-joint) are textbook Gamma / Gaussian formulas written in the harness (dense numpy)",
     "block kernels themselves are C02/C06/C10: here the real MH proposal is start + scale*xi with the *observed* "
     "scale (adaptation of the scale during warm-up is not judged), Conjugate draws are judged through the captured "
-    "Gamma request, LinearRTO through the dense least-squares solution for the scripted noise (1e-7)",
+    "Gamma request, LinearRTO through the dense least-squares solution for the scripted noise (1e-7), MALA through the "
+    "textbook Langevin proposal / Metropolis-Hastings ratio with the observed scale, NUTS through a "
+    "reference implementation of Hoffman-Gelman algorithm 3 (slice variable in log space, scripted momentum and "
+    "slice draw, observed answers of the symbolic uniforms, each compared probability checked) run with the "
+    "*observed* step size and max_depth of each transition (HybridGibbs re-initialises a NUTS block at every visit, "
+    "so step-size adaptation across visits, and the step size of the 2nd.. transition of a visit, are not judged)",
+    "NUTS / MALA are offered only where the library provides the gradient of the block's conditional (Gaussian blocks written "
+    "with cov=...; it refuses Gaussian(prec=scalar) priors and Gamma blocks at construction); cuqi.sampler.Gibbs is not "
+    "given NUTS / MALA blocks",
     "invariance of the joint follows by composition (each block drawn from / invariant for the exact conditional) "
     "and is not re-enumerated",
     "decision trees larger than the stated size are explored deviation-bounded (<=1 rejection from all-accept, "
-    "all-reject, two alternating paths), not completely",
+    "all-reject, alternating paths), not completely",
     "cuqi.sampler.Gibbs has no num_sampling_steps: one transition per visit; its block samplers are re-created from "
     "the conditional at every visit (factory called with the target) and advanced with step(x)",
     "when no initial point is given (joint hier2) the reference starts from the values the samplers announce after "
     "construction (class-specific defaults: ones, zeros for LinearRTO); given initial points are compared strictly",
     "legacy Gibbs: a call that raises (second warm-up, continuing after a warm-up-only call) is a refusal and "
     "ends the history",
+    "dict orders: Python dicts keep insertion order; the blocks of a sweep are expected in the joint's parameter order "
+    "(target.get_parameter_names()) whatever the order of the user's dicts",
 ]
 
 IFACE_NAME = {"hybrid": "cuqi.experimental.mcmc.HybridGibbs", "legacy": "cuqi.sampler.Gibbs"}
@@ -86,13 +119,16 @@ class Model:
         self.A = refs.full_matrix(m, n, k)
         self.y = refs.dyadic_vec(m, k + 2, scale=0.25)
         self.mx = refs.dyadic_vec(n, k + 1, scale=0.125)
-        if name == "hier3":
+        if name in ("hier3", "hier3c"):
+            # hier3c: the same law, the prior of x written with cov=1/d instead of prec=d (the form for which the
+            # library offers the gradient of the x-conditional, i.e. accepts a NUTS block)
             self.order = ["d", "l", "x"]
             self.kind = {"d": "pos", "l": "pos", "x": "vec"}
             self.dim = {"d": 1, "l": 1, "x": n}
             self.hyper = {"d": (2.0, 1.5), "l": (3.0, 0.5)}
             self.init = {"d": np.array([2.0]), "l": np.array([1.5]), "x": refs.dyadic_vec(n, k + 4, scale=0.25)}
-            self.real = {"d": ["conj", "mh"], "l": ["conj", "mh"], "x": ["rto", "mh"]}
+            self.real = {"d": ["conj", "mh"], "l": ["conj", "mh"],
+                         "x": ["rto", "mh"] if name == "hier3" else ["nuts", "mala"]}
         elif name == "hier2":
             self.order = ["x", "d"]
             self.kind = {"d": "pos", "x": "vec"}
@@ -108,7 +144,7 @@ class Model:
             self.Cu = refs.spd_matrix(n, k)
             self.mu = refs.dyadic_vec(n, k + 3, scale=0.125)
             self.init = {"u": refs.dyadic_vec(n, k + 5, scale=0.25), "v": refs.dyadic_vec(n, k + 6, scale=0.25)}
-            self.real = {"u": ["mh"], "v": ["rto", "mh"]}
+            self.real = {"u": ["mh"], "v": ["rto", "mh", "nuts", "mala"]}
         else:
             raise ValueError(name)
 
@@ -117,10 +153,13 @@ class Model:
         import cuqi
         from cuqi.distribution import Gamma, Gaussian, JointDistribution
         A = cuqi.model.LinearModel(self.A.copy())
-        if self.name == "hier3":
+        if self.name in ("hier3", "hier3c"):
             d = Gamma(*self.hyper["d"], name="d")
             l = Gamma(*self.hyper["l"], name="l")
-            x = Gaussian(self.mx.copy(), prec=lambda d: d, name="x")
+            if self.name == "hier3":
+                x = Gaussian(self.mx.copy(), prec=lambda d: d, name="x")
+            else:
+                x = Gaussian(self.mx.copy(), cov=lambda d: 1 / d, name="x")
             y = Gaussian(A @ x, cov=lambda l: 1 / l, name="y")
             return JointDistribution(d, l, x, y)(y=self.y.copy())
         if self.name == "hier2":
@@ -141,7 +180,7 @@ class Model:
 
     # ---- reference side ----------------------------------------------------------------
     def logjoint(self, v):
-        if self.name == "hier3":
+        if self.name in ("hier3", "hier3c"):
             d, l, x = float(v["d"][0]), float(v["l"][0]), v["x"]
             if not (d > 0 and l > 0):
                 return -np.inf
@@ -162,6 +201,17 @@ class Model:
         vv[b] = np.asarray(val, float).ravel()
         return self.logjoint(vv)
 
+    def cond_grad(self, b, val, cur):
+        """Gradient of the conditional log-density of a vector block (all are Gaussian in the block)."""
+        z = np.asarray(val, float).ravel()
+        if self.name in ("hier3", "hier3c", "hier2"):
+            d = float(cur["d"][0])
+            lam = float(cur["l"][0]) if "l" in cur else 4.0
+            return -d * (z - self.mx) + lam * (self.A.T @ (self.y - self.A @ z))
+        if b == "v":
+            return -2.0 * (z - self.B @ cur["u"]) + 4.0 * (self.A.T @ (self.y - self.A @ z))
+        return -np.linalg.solve(self.Cu, z - self.mu) + 2.0 * (self.B.T @ (cur["v"] - self.B @ z))
+
     def conj_params(self, b, cur):
         """Exact Gamma conditional (shape, rate) of a precision-type block."""
         a, r = self.hyper[b]
@@ -173,7 +223,7 @@ class Model:
 
     def rto_solution(self, b, cur, e):
         """argmin || M x - (b~ + e) ||  for the scripted noise e (likelihood rows first, then prior rows)."""
-        if self.name == "hier3":
+        if self.name in ("hier3", "hier3c"):
             sl, sp, pm = math.sqrt(float(cur["l"][0])), math.sqrt(float(cur["d"][0])), self.mx
         elif self.name == "hier2":
             sl, sp, pm = 2.0, math.sqrt(float(cur["d"][0])), self.mx
@@ -198,6 +248,10 @@ def gamma_script(i):
     return 0.75 + 0.25 * ((5 * i + 2) % 9)
 
 
+def exp_script(i):
+    return 0.25 + 0.375 * ((3 * i + 1) % 7)
+
+
 def spy_value(kind, dim, j):
     if kind == "pos":
         return np.array([0.75 + 0.25 * ((3 * j + 1) % 11)])
@@ -205,6 +259,11 @@ def spy_value(kind, dim, j):
 
 
 MH_SCALE = {"pos": 0.05, "vec": 0.5}
+NUTS_EPS = 0.125          # configured step_size of NUTS blocks (the step size of each transition is *observed*)
+SPECIAL_KINDS = ("nuts",)  # sampler classes HybridGibbs.step routes through a path of their own
+GRAD_KINDS = ("nuts", "mala")   # kernels that read (and cache) the gradient of the conditional
+DEC_KINDS = ("mh", "nuts", "mala")   # kernels with uniform draws (decision points)
+MALA_SCALE = 0.0625
 
 
 # ========================================================================================
@@ -218,9 +277,10 @@ class Recorder:
         self.spy_count = 0
         self._last_target = None
 
-    def before(self, block, kind, target, start, scale=None):
+    def before(self, block, kind, target, start, scale=None, extra=None):
         ev = {"block": block, "kind": kind, "scale": None if scale is None else float(np.ravel(scale)[0]),
-              "start": np.array(start, dtype=float, copy=True).ravel(), "probes": [], "probe_error": None}
+              "start": np.array(start, dtype=float, copy=True).ravel(), "probes": [], "probe_error": None,
+              "gprobe": None, "extra": extra}
         # all 3 probes at the first transition of a visit (new target object / other block before), 1 probe
         # (detects in-place changes of the target) on the following transitions of the same visit
         same = self.events and self.events[-1]["block"] == block and self._last_target is target
@@ -229,6 +289,8 @@ class Recorder:
         try:
             for p in self.model.probes(block)[:1 if same else 3]:
                 ev["probes"].append(float(np.asarray(target.logd(p.copy())).ravel()[0]))
+            if kind in GRAD_KINDS:      # kernels that move along the gradient: the gradient of the target too
+                ev["gprobe"] = np.array(target.gradient(self.model.probes(block)[0].copy()), dtype=float).ravel()
         except HarnessError:
             raise
         except Exception as e:   # noqa
@@ -248,7 +310,7 @@ class Recorder:
 def _hybrid_classes():
     """Recording subclasses for the new interface (built lazily: importing cuqi is slow)."""
     import cuqi
-    from cuqi.experimental.mcmc import Sampler, MH, Conjugate, LinearRTO
+    from cuqi.experimental.mcmc import Sampler, MH, Conjugate, LinearRTO, NUTS, MALA
     if getattr(_hybrid_classes, "_c", None):
         return _hybrid_classes._c
 
@@ -282,15 +344,37 @@ def _hybrid_classes():
         Rec.__name__ = base.__name__
         return Rec
 
-    _hybrid_classes._c = {"spy": Spy, "mh": rec(MH, "mh"), "conj": rec(Conjugate, "conj"), "rto": rec(LinearRTO, "rto")}
+    def grec(base, kind, scale_attr):
+        """Gradient kernels read their start from current_point AND from the cached log-density / gradient: all
+        three are recorded."""
+        class Rec(base):
+            def step(self):
+                r = self._vrec
+                extra = {"max_depth": int(getattr(self, "max_depth", 0)),
+                         "cached_logd": float(np.asarray(self.current_target_logd, dtype=float).ravel()[0]),
+                         "cached_grad": np.array(self.current_target_grad, dtype=float, copy=True).ravel()}
+                ev = r.before(self._vblock, kind, self.target, self.current_point, getattr(self, scale_attr), extra)
+                acc = base.step(self)
+                r.after(ev, self.current_point, acc)
+                return acc
+        Rec.__name__ = base.__name__
+        return Rec
+
+    _hybrid_classes._c = {"spy": Spy, "mh": rec(MH, "mh"), "conj": rec(Conjugate, "conj"),
+                          "rto": rec(LinearRTO, "rto"), "nuts": grec(NUTS, "nuts", "_epsilon"),
+                          "mala": grec(MALA, "mala", "scale")}
     return _hybrid_classes._c
 
 
-def _make_hybrid_sampler(kind, block, model, recorder, init):
+def _make_hybrid_sampler(kind, block, model, recorder, init, nuts_depth=0):
     C = _hybrid_classes()[kind]
     ip = None if init is None else init[block].copy()
     if kind == "mh":
         s = C(scale=MH_SCALE[model.kind[block]], initial_point=ip)
+    elif kind == "nuts":
+        s = C(max_depth=int(nuts_depth), step_size=NUTS_EPS, initial_point=ip)
+    elif kind == "mala":
+        s = C(scale=MALA_SCALE, initial_point=ip)
     elif kind == "rto":
         s = C(maxit=50, tol=1e-13, initial_point=ip)
     else:
@@ -332,7 +416,11 @@ class LegacyBlock:
 def run_history(cell, model, seq, decisions):
     """Executes the operation sequence; returns the observation (events + snapshots after each op)."""
     iface = cell["iface"]
-    stream = Stream(normal=normal_script, gamma=lambda rec, i: gamma_script(i), decisions=decisions)
+    stream = Stream(normal=normal_script, gamma=lambda rec, i: gamma_script(i),
+                    exponential=lambda rec, i: exp_script(i), decisions=decisions)
+    nb = len(model.order)
+    sorder = cell.get("sorder") or list(range(nb))      # order in which the strategy dict lists the blocks
+    norder = cell.get("norder") or list(range(nb))      # order in which the step-count dict lists the blocks
     recorder = Recorder(model, stream)
     obs = {"ops": [], "refused_at": None, "construct_error": None}
     with stream.installed():
@@ -340,16 +428,20 @@ def run_history(cell, model, seq, decisions):
             joint = model.make_joint()
             if iface == "hybrid":
                 import cuqi
-                samplers = {b: _make_hybrid_sampler(cell["assign"][i], b, model, recorder, model.init)
-                            for i, b in enumerate(model.order)}
-                nss = {b: int(cell["nsteps"][i]) for i, b in enumerate(model.order)}
+                samplers = {model.order[i]: _make_hybrid_sampler(cell["assign"][i], model.order[i], model, recorder,
+                                                                 model.init, cell.get("nuts_depth", 0))
+                            for i in sorder}
+                nss = {model.order[i]: int(cell["nsteps"][i]) for i in norder if cell["nsteps"][i] is not None}
+                if not nss:
+                    nss = None          # no step counts given at all: the documented default (1 everywhere)
                 G = cuqi.experimental.mcmc.HybridGibbs(joint, samplers, nss)
                 obs["initial"] = {b: np.array(G.current_samples[b], dtype=float, copy=True).ravel()
                                   for b in model.order}
             else:
                 import cuqi
                 strat = {}
-                for i, b in enumerate(model.order):
+                for i in sorder:
+                    b = model.order[i]
                     strat[b] = (lambda target, _b=b, _k=cell["assign"][i]: LegacyBlock(recorder, _b, _k, target))
                 G = cuqi.sampler.Gibbs(joint, strat)
         except HarnessError:
@@ -386,6 +478,78 @@ def run_history(cell, model, seq, decisions):
 
 
 # ========================================================================================
+# reference kernel of a NUTS block (Hoffman & Gelman 2014, algorithm 3 with a slice variable in log space)
+# ========================================================================================
+class _Answers:
+    """The environment's answers (observed decisions) handed to the reference kernel, one per uniform draw."""
+
+    def __init__(self, dec):
+        self.dec = list(dec)
+        self.asked = []          # (reference probability, probability the implementation compared with)
+        self.short = False
+
+    def ask(self, p_ref):
+        i = len(self.asked)
+        if i >= len(self.dec):
+            self.short = True
+            self.asked.append((float(p_ref), None))
+            return True
+        p_got, choice, _ = self.dec[i]
+        self.asked.append((float(p_ref), float(p_got)))
+        return bool(choice)
+
+
+def ref_nuts_step(f, g, x0, eps, max_depth, r0, e, ans, delta_max=1000.0):
+    """One NUTS transition from x0 for the density exp(f) (gradient g): momentum r0, slice draw log u = H0 - e."""
+    def leap(x, r, gr, h):
+        r1 = r + 0.5 * h * gr
+        x1 = x + h * r1
+        l1, g1 = f(x1), g(x1)
+        return x1, r1 + 0.5 * h * g1, l1, g1
+
+    l0, g0 = f(x0), g(x0)
+    ham0 = l0 - 0.5 * float(r0 @ r0)
+    log_u = ham0 - e
+
+    def build(x, r, gr, v, j):
+        if j == 0:
+            x1, r1, l1, g1 = leap(x, r, gr, v * eps)
+            h1 = l1 - 0.5 * float(r1 @ r1)
+            return x1, r1, g1, x1, r1, g1, x1, l1, int(log_u <= h1), int(log_u < delta_max + h1)
+        xm, rm, gm, xp, rp, gp, x1, l1, n1, s1 = build(x, r, gr, v, j - 1)
+        if s1 == 1:
+            if v == -1:
+                xm, rm, gm, _, _, _, x2, l2, n2, s2 = build(xm, rm, gm, v, j - 1)
+            else:
+                _, _, _, xp, rp, gp, x2, l2, n2, s2 = build(xp, rp, gp, v, j - 1)
+            if ans.ask(n2 / max(1, n1 + n2)):
+                x1, l1 = x2, l2
+            dx = xp - xm
+            s1 = s2 * int(dx @ rm >= 0) * int(dx @ rp >= 0)
+            n1 += n2
+        return xm, rm, gm, xp, rp, gp, x1, l1, n1, s1
+
+    x = x0
+    xm = xp = x0
+    rm = rp = r0
+    gm = gp = g0
+    j, s, n = 0, 1, 1
+    while s == 1 and j <= max_depth:
+        v = 1 if ans.ask(0.5) else -1
+        if v == -1:
+            xm, rm, gm, _, _, _, x1, l1, n1, s1 = build(xm, rm, gm, v, j)
+        else:
+            _, _, _, xp, rp, gp, x1, l1, n1, s1 = build(xp, rp, gp, v, j)
+        if s1 == 1 and ans.ask(min(1.0, n1 / n)) and np.isfinite(l1):
+            x = x1
+        n += n1
+        dx = xp - xm
+        s = s1 * int(dx @ rm >= 0) * int(dx @ rp >= 0)
+        j += 1
+    return x
+
+
+# ========================================================================================
 # the reference sweep model, advanced in lock-step with the observation
 # ========================================================================================
 class Judge:
@@ -393,6 +557,21 @@ class Judge:
         self.res, self.cell, self.model = res, cell, model
         self.comp = IFACE_NAME[cell["iface"]]
         self.histories = set()     # (operation prefix, decision prefix) pairs compared with the reference
+        nb = len(model.order)
+        ident = list(range(nb))
+        permuted = (cell.get("sorder") or ident) != ident or (cell.get("norder") or ident) != ident
+        self.order_facet = ",dict-order=permuted" if permuted else ""
+        # the analytic conditional gradients of the harness against central differences of its own log-joint
+        # (exact for these quadratics up to rounding) - a wrong reference must never become a verdict
+        for b in model.order:
+            if model.kind[b] != "vec" or not any(k in GRAD_KINDS for k in cell["assign"]):
+                continue
+            cur0 = model.initial("hybrid")
+            z = model.probes(b)[0]
+            num = np.array([(model.cond_logd(b, z + 1e-3 * e_, cur0) - model.cond_logd(b, z - 1e-3 * e_, cur0)) / 2e-3
+                            for e_ in np.eye(model.dim[b])])
+            if not close(num, model.cond_grad(b, z, cur0), 1e-7):
+                raise HarnessError("reference gradient of block %r disagrees with the reference log-joint" % b)
 
     def fail(self, op, facet, msg, **detail):
         self.res.fail("C09|%s|%s|%s" % (self.comp, op, facet), msg, focus=self.focus, **detail)
@@ -426,7 +605,9 @@ class Judge:
         n_norm = n_gam = spy_j = 0
         compared = 0
         assign = dict(zip(model.order, cell["assign"]))
-        nsteps = dict(zip(model.order, cell.get("nsteps") or [1] * len(model.order)))
+        nsteps = {b: (1 if n_ is None else int(n_))         # a block without a given count: the documented default 1
+                  for b, n_ in zip(model.order, cell.get("nsteps") or [1] * len(model.order))}
+        n_exp = 0
         ndec = 0
         for oi, op in enumerate(seq):
             if obs["refused_at"] is not None and oi >= obs["refused_at"]:
@@ -452,7 +633,7 @@ class Judge:
                     for b in model.order:
                         for t in range(nsteps[b]):
                             if ei >= len(events) or ei >= obs["ops"][oi]["n_events"]:
-                                self.fail("sweep", "missing-transition",
+                                self.fail("sweep", "missing-transition" + self.order_facet,
                                           "block %r: transition %d of %d of sweep %d in op %d was not made" %
                                           (b, t + 1, nsteps[b], sw, oi))
                                 return compared
@@ -464,7 +645,7 @@ class Judge:
                             if ev["block"] != b:
                                 prev_b = events[ei - 2]["block"] if ei >= 2 else None
                                 facet = ("transition-count" if (t > 0 or ev["block"] == prev_b) else "block-order")
-                                self.fail("sweep", facet,
+                                self.fail("sweep", facet + self.order_facet,
                                           "expected a transition of block %r (step %d of the configured %d), the sampler "
                                           "of block %r ran" % (b, t + 1, nsteps[b], ev["block"]))
                                 return compared
@@ -472,6 +653,8 @@ class Judge:
                             if ev["start"].shape != cur[b].shape or not np.array_equal(ev["start"], cur[b]):
                                 facet = ("at-continuation" if (oi > 0 and sweeps_in_op == 0 and t == 0)
                                          else ("first-step" if t == 0 else "later-step"))
+                                if kind in SPECIAL_KINDS:
+                                    facet = "kind=%s,%s" % (kind, facet)
                                 self.fail("block-start", facet,
                                           "block %r starts at %s, its current value is %s (op %d sweep %d step %d)" %
                                           (b, ev["start"], cur[b], oi, sw, t), events_before=ei - 1)
@@ -504,6 +687,15 @@ class Judge:
                                           (b, {o: cur[o].tolist() for o in model.order if o != b}, ev["probes"], ref),
                                           at_op=oi, sweep=sw, step=t)
                                 return compared
+                            if ev.get("gprobe") is not None:
+                                gref = model.cond_grad(b, model.probes(b)[0], cur)
+                                res.evaluations += 1
+                                if ev["gprobe"].shape != gref.shape or not close(ev["gprobe"], gref, 1e-9):
+                                    self.fail("conditional", "gradient",
+                                              "gradient of the target handed to block %r at %s is %s; gradient of the joint "
+                                              "conditioned on the current other blocks is %s" %
+                                              (b, model.probes(b)[0], ev["gprobe"], gref), at_op=oi, sweep=sw, step=t)
+                                    return compared
                             # (3) the transition itself
                             new = None
                             kinds_log = [r["kind"] for r in ev["log"]]
@@ -565,12 +757,83 @@ class Judge:
                                     else:
                                         new = ev["start"]       # outside the support: never accepted
                                 n_norm += 1
+                            elif kind in GRAD_KINDS:
+                                # the kernel starts from (current point, cached log-density, cached gradient): the cached
+                                # evaluations must belong to the conditional given the CURRENT other blocks
+                                c_old = model.cond_logd(b, ev["start"], cur)
+                                g_old = model.cond_grad(b, ev["start"], cur)
+                                res.evaluations += 1
+                                ex = ev["extra"]
+                                if not close(ex["cached_logd"], c_old, 1e-9):
+                                    self.fail("%s-block" % kind, "stale-cached-logd",
+                                              "%s block %r starts its transition with log-density %.12g cached for its "
+                                              "current point; under the conditional given the current other blocks it is "
+                                              "%.12g" % (kind, b, ex["cached_logd"], c_old), at_op=oi, sweep=sw, step=t)
+                                    return compared
+                                if ex["cached_grad"].shape != g_old.shape or not close(ex["cached_grad"], g_old, 1e-9):
+                                    self.fail("%s-block" % kind, "stale-cached-gradient",
+                                              "%s block %r starts its transition with cached gradient %s; under the "
+                                              "conditional given the current other blocks it is %s" %
+                                              (kind, b, ex["cached_grad"], g_old), at_op=oi, sweep=sw, step=t)
+                                    return compared
+                            if kind == "mala":
+                                want_log = ["normal", "uniform"]
+                                if kinds_log == want_log:
+                                    sc = ev["scale"]
+                                    xi = math.sqrt(sc) * normal_script(model.dim[b], n_norm)
+                                    prop = ev["start"] + 0.5 * sc * g_old + xi
+                                    c_new, g_new = model.cond_logd(b, prop, cur), model.cond_grad(b, prop, cur)
+
+                                    def logq(to, frm, gfrm):
+                                        r_ = to - (frm + 0.5 * sc * gfrm)
+                                        return -0.5 * float(r_ @ r_) / sc
+                                    if len(ev["dec"]) != 1:
+                                        self.fail("mala-block", "decision-count", "%d decisions in one MALA step" % len(ev["dec"]))
+                                        return compared
+                                    p_got, choice, _ = ev["dec"][0]
+                                    p_ref = math.exp(min(0.0, c_new - c_old + logq(ev["start"], prop, g_new)
+                                                         - logq(prop, ev["start"], g_old)))
+                                    res.evaluations += 1
+                                    if abs(p_got - p_ref) > 1e-9:
+                                        self.fail("mala-block", "acceptance-probability",
+                                                  "MALA block %r accepts x'=%s from x=%s with probability %.12g; the "
+                                                  "Metropolis-Hastings ratio under the conditional given the current other "
+                                                  "blocks is %.12g" % (b, prop, ev["start"], p_got, p_ref),
+                                                  at_op=oi, sweep=sw, step=t)
+                                        return compared
+                                    new = prop if choice else ev["start"]
+                                n_norm += 1
+                            elif kind == "nuts":
+                                ans = _Answers(ev["dec"])
+                                r0 = normal_script(model.dim[b], n_norm)
+                                new = ref_nuts_step(lambda z_: model.cond_logd(b, z_, cur),
+                                                    lambda z_: model.cond_grad(b, z_, cur),
+                                                    ev["start"].copy(), ev["scale"], ex["max_depth"], r0,
+                                                    exp_script(n_exp), ans)
+                                n_norm += 1
+                                n_exp += 1
+                                want_log = ["normal", "exponential"] + ["uniform"] * len(ans.asked)
+                                if kinds_log == want_log and not ans.short and len(ev["dec"]) == len(ans.asked):
+                                    res.evaluations += len(ans.asked)
+                                    bad = [(i_, pr, pg) for i_, (pr, pg) in enumerate(ans.asked) if abs(pr - pg) > 1e-9]
+                                    if bad:
+                                        self.fail("nuts-block", "decision-probability",
+                                                  "NUTS block %r: uniform draw %d of the transition is compared with "
+                                                  "%.12g, the reference kernel on the conditional given the current other "
+                                                  "blocks compares with %.12g" % (b, bad[0][0], bad[0][2], bad[0][1]),
+                                                  at_op=oi, sweep=sw, step=t)
+                                        return compared
+                                else:
+                                    new = None
+                                    if kinds_log == want_log:
+                                        want_log = want_log + ["<%d decisions>" % len(ans.asked)]
+                                        kinds_log = kinds_log + ["<%d decisions>" % len(ev["dec"])]
                             if kinds_log != want_log:
                                 self.fail("block-transition", "kind=%s,random-requests" % kind,
                                           "one transition of a %s block issued random requests %s, expected %s" %
                                           (kind, kinds_log, want_log))
                                 return compared
-                            tol = 1e-7 if kind == "rto" else 1e-12
+                            tol = 1e-7 if kind == "rto" else (1e-9 if kind in GRAD_KINDS else 1e-12)
                             if ev["new"].shape != new.shape or not close(ev["new"], new, tol):
                                 self.fail("block-transition", "kind=%s,value" % kind,
                                           "block %r moved to %s, reference kernel gives %s" % (b, ev["new"], new))
@@ -589,7 +852,7 @@ class Judge:
             snap = obs["ops"][oi]
             if snap["n_events"] != ei:
                 ev = events[ei]
-                self.fail("sweep", "extra-transition",
+                self.fail("sweep", "extra-transition" + self.order_facet,
                           "operation %d made %d block transitions, the reference sweep makes %d (first extra: block %r)"
                           % (oi, snap["n_events"], ei, ev["block"]))
                 return compared
@@ -627,29 +890,41 @@ def _sequences(ops, depth):
     return [list(s) for s in itertools.product(ops, repeat=depth)]
 
 
-def _assignments(model, tier):
-    kinds = [["spy"] + model.real[b] for b in model.order]
+def _assignments(model, tier, iface="hybrid"):
+    kinds = [["spy"] + [k for k in model.real[b] if iface == "hybrid" or k not in SPECIAL_KINDS] for b in model.order]
     full = [list(a) for a in itertools.product(*kinds)]
+    if model.name == "hier3c":      # this joint only adds the gradient-capable form of hier3: cells with NUTS / MALA
+        full = [a for a in full if any(k in GRAD_KINDS for k in a)]
     if tier == "thorough":
         return full
     keep = []
     for a in full:
         real = [k for k in a if k != "spy"]
-        setA = all(k == model.real[b][0] for b, k in zip(model.order, a) if k != "spy")
+        grad = [k for k in real if k in GRAD_KINDS]
+        first = {b: ([r for r in model.real[b] if r not in GRAD_KINDS] or [None])[0] for b in model.order}
+        setA = all(k in GRAD_KINDS or k == first[b] for b, k in zip(model.order, a) if k != "spy")
         setB = all(k == "mh" for k in real)
-        if setA or setB:
+        # set C: a gradient kernel (NUTS: the class HybridGibbs special-cases; MALA: cached gradient) next to spies /
+        # the set-A samplers
+        if (setA or setB) and a not in keep:
             keep.append(a)
     return keep
 
 
-def _nsteps(nb, tier, nmh):
+def _ndec(assign):
+    return sum(1 for a in assign if a in DEC_KINDS)
+
+
+def _nsteps(nb, tier, nmh, nnuts=0):
     if tier == "thorough":
         full = [list(t) for t in itertools.product((1, 2, 3), repeat=nb)]
-        if nmh == 0 or nb < 3:
+        if nmh + nnuts == 0 or nb < 3:
             return full
-        # MH cells of the 3-block joint: all-equal patterns + all permutations of (1,2,3)
+        # MH / NUTS cells of the 3-block joint: all-equal patterns + all permutations of (1,2,3)
         return [t for t in full if len(set(t)) in (1, 3)]
     out = [[1] * nb, [2] * nb, [3, 1, 2][:nb]]
+    if nnuts:
+        out = [[1] * nb, [3, 1, 2][:nb]]
     uniq = []
     for o in out:
         if o not in uniq:
@@ -657,34 +932,116 @@ def _nsteps(nb, tier, nmh):
     return uniq
 
 
+def _perms(nb):
+    return [list(p) for p in itertools.permutations(range(nb))]
+
+
+def _order_cells(model, tier, k):
+    """The facet 'order of the user's dicts relative to the joint's parameter order' (hybrid: strategy dict and
+    step-count dict, legacy: strategy dict); the identity/identity cells are those of the main product."""
+    quick = tier == "quick"
+    nb = len(model.order)
+    ident, rev = list(range(nb)), list(range(nb))[::-1]
+    perms = _perms(nb)
+    spy = ["spy"] * nb
+    setA = [[r for r in model.real[b] if r not in GRAD_KINDS][0] if model.name != "hier3c" else None
+            for b in model.order]
+    nonuni = [[3, 1, 2][:nb]] if quick else [list(t) for t in itertools.permutations((1, 2, 3), nb)]
+    partial = [[None, 3, 2][:nb]] if quick else [[None, 3, 2][:nb], [2, None, 3][:nb], [3, 2, None][:nb]]
+
+    def hyb(assign, ns, so, no, nuts_depth=0):
+        nd = _ndec(assign)
+        return {"iface": "hybrid", "model": model.name, "assign": list(assign), "nsteps": list(ns), "depth": 2,
+                "full_tree": 4 if quick else (8 if nd else 0), "cat": k, "sorder": list(so), "norder": list(no),
+                "nuts_depth": nuts_depth}
+
+    if model.name != "hier3c":
+        # all-spy blocks: the complete product of both orders with non-uniform counts
+        for ns in nonuni:
+            for so in perms:
+                for no in perms:
+                    if so != ident or no != ident:
+                        yield hyb(spy, ns, so, no)
+        # counts given for some blocks only / for none (documented default 1)
+        for ns in partial:
+            for so in perms:
+                yield hyb(spy, ns, so, rev)
+        yield hyb(spy, [None] * nb, rev, ident)
+        # real samplers (set A): both dicts written in the same, non-joint order (thorough: all pairs)
+        for so in perms:
+            for no in (perms if not quick else [so]):
+                if so != ident or no != ident:
+                    yield hyb(setA, [3, 1, 2][:nb], so, no)
+        # legacy Gibbs: order of the strategy dict
+        for so in perms:
+            if so != ident:
+                yield {"iface": "legacy", "model": model.name, "assign": spy, "nsteps": None, "depth": 2,
+                       "full_tree": 4, "cat": k, "sorder": so}
+                if so == rev or not quick:
+                    legA = [a for a in setA]
+                    yield {"iface": "legacy", "model": model.name, "assign": legA, "nsteps": None, "depth": 2,
+                           "full_tree": 4 if quick else 8, "cat": k, "sorder": so}
+    # a NUTS (thorough: also MALA) block with permuted dicts
+    for gk in (("nuts",) if quick else GRAD_KINDS):
+        if any(gk in model.real[b] for b in model.order):
+            an = [(gk if gk in model.real[b] else model.real[b][0]) for b in model.order]
+            for so in ([rev] if quick else [p_ for p_ in perms if p_ != ident]):
+                yield hyb(an, [3, 1, 2][:nb], so, so)
+
+
 def cells(tier, seed):
+    seen = set()
+    for c in _cells(tier, seed):
+        key = repr(sorted(c.items()))
+        if key not in seen:
+            seen.add(key)
+            yield c
+
+
+def _cells(tier, seed):
     k = refs.cat(seed)
     quick = tier == "quick"
-    for mname in ("hier3", "hier2", "gauss2"):
+    for mname in ("hier3", "hier2", "gauss2", "hier3c"):
         model = Model(mname, k)
         nb = len(model.order)
         for assign in _assignments(model, tier):
             nmh = sum(1 for a in assign if a == "mh")
-            for ns in _nsteps(nb, tier, nmh):
-                if nmh == 0:
+            nnuts = sum(1 for a in assign if a == "nuts")
+            ngrad = sum(1 for a in assign if a in GRAD_KINDS)
+            ndec = nmh + ngrad
+            for ns in _nsteps(nb, tier, nmh, ngrad):
+                if ndec == 0:
                     depth, full = 3, 0
                 elif quick:
                     depth, full = 2, 4
                 else:
-                    depth = 3 if (nmh == 1 and len(set(ns)) == 1) else 2
+                    depth = 3 if (ndec == 1 and len(set(ns)) == 1) else 2
                     full = 8 if depth == 2 else 6
-                yield {"iface": "hybrid", "model": mname, "assign": assign, "nsteps": ns, "depth": depth,
-                       "full_tree": full, "cat": k}
-            yield {"iface": "legacy", "model": mname, "assign": assign, "nsteps": None,
-                   "depth": 2 if (quick or nmh > 1) else 3,
-                   "full_tree": 4 if quick else (8 if nmh > 1 else 6), "cat": k}
+                cell = {"iface": "hybrid", "model": mname, "assign": assign, "nsteps": ns, "depth": depth,
+                        "full_tree": full, "cat": k}
+                if nnuts:
+                    cell["nuts_depth"] = 0
+                yield cell
+                if nnuts and not quick and ns == [1] * nb:
+                    # deeper trajectories (one doubling): more uniform draws per transition
+                    yield dict(cell, nuts_depth=1, depth=2, full_tree=8)
+            if mname != "hier3c" and not ngrad:
+                yield {"iface": "legacy", "model": mname, "assign": assign, "nsteps": None,
+                       "depth": 2 if (quick or nmh > 1) else 3,
+                       "full_tree": 4 if quick else (8 if nmh > 1 else 6), "cat": k}
+        for c in _order_cells(model, tier, k):
+            yield c
 
 
 # ========================================================================================
 def _count_decisions(cell, seq):
     """Upper bound of MH decisions in a history (for choosing complete vs deviation-bounded exploration)."""
-    nb_mh = [i for i, a in enumerate(cell["assign"]) if a == "mh"]
-    per_sweep = sum((cell["nsteps"][i] if cell["nsteps"] else 1) for i in nb_mh)
+    # per transition: MH 1 decision; NUTS with max_depth D up to 2 uniform draws at depth 0 (direction + accept, the
+    # latter with probability 0 or 1, i.e. not a branch) and 2 + (2^j - 1) at doubling j
+    D = int(cell.get("nuts_depth", 0))
+    w = {"mh": 1, "mala": 1, "nuts": 1 if D == 0 else sum(2 + (2 ** j - 1) for j in range(D + 1))}
+    per_sweep = sum(w[a] * ((cell["nsteps"][i] or 1) if cell["nsteps"] else 1)
+                    for i, a in enumerate(cell["assign"]) if a in w)
     if cell["iface"] == "hybrid":
         sweeps = sum(op[1] for op in seq)
     else:
@@ -698,7 +1055,8 @@ def eval_cell(cell):
     model = Model(cell["model"], cell["cat"])
     ops = HYBRID_OPS if cell["iface"] == "hybrid" else LEGACY_OPS
     judge = Judge(res, cell, model)
-    has_mh = any(a == "mh" for a in cell["assign"])
+    has_mh = any(a in DEC_KINDS for a in cell["assign"])
+    has_nuts = any(a == "nuts" for a in cell["assign"])
     nhist = 0
     for seq in _sequences(ops, cell["depth"]):
         if not has_mh:
@@ -715,7 +1073,11 @@ def eval_cell(cell):
                 res.count("complete_trees")
             else:
                 leaves = explore(run, max_deviations=1)
-                for pat in ([False] * nd, [i % 2 == 0 for i in range(nd)], [i % 2 == 1 for i in range(nd)]):
+                L = nd * (3 if has_nuts else 1)      # NUTS: decision points with probability 0/1 occupy positions too
+                pats = [[False] * L, [i % 2 == 0 for i in range(L)], [i % 2 == 1 for i in range(L)]]
+                if has_nuts:        # direction and accept answers of one NUTS transition are adjacent positions
+                    pats += [[(i // 2) % 2 == 0 for i in range(L)], [(i // 2) % 2 == 1 for i in range(L)]]
+                for pat in pats:
                     d = Decisions(pat)
                     leaves.append((d, run(d)))
                 res.count("bounded_trees")
